@@ -139,11 +139,12 @@ def complement(mol, s, warnings):
         # chain neighbours present, decided from the coordinates (not from the program's own bond list): a carbonyl C of
         # another residue within 1.5 A of N, an N of another residue within 1.5 A of C
         def near(at, name):
+            # (decided on the atoms of the input file, not on what the program kept of them)
             if at is None:
                 return False
-            for b in conf.atoms:
-                if b.name == name and b.element != 'H' and (b.res_num, b.icode, b.chain_id) != (at.res_num, at.icode, at.chain_id):
-                    if (b.x - at.x) ** 2 + (b.y - at.y) ** 2 + (b.z - at.z) ** 2 < 1.5 ** 2:
+            for b in s.atoms:
+                if b.name == name and b.element != 'H' and (b.resnum, b.icode, b.chain.strip() or '_') != (at.res_num, at.icode, at.chain_id):
+                    if (b.x / 1000.0 - at.x) ** 2 + (b.y / 1000.0 - at.y) ** 2 + (b.z / 1000.0 - at.z) ** 2 < 1.5 ** 2:
                         return True
             return False
         prev_ok = near(nat, 'C')
@@ -157,9 +158,9 @@ def complement(mol, s, warnings):
         for an, (nb, nh) in rules.items():
             at = by.get(an)
             # regular covalent geometry, decided from the coordinates: exactly nb heavy atoms within 2.0 A
-            if at is None or sum(1 for b in conf.atoms if b is not at and b.element != 'H'
-                                 and (b.x - at.x) ** 2 + (b.y - at.y) ** 2 + (b.z - at.z) ** 2 < 4.0) != nb:
-                regular = False
+            if at is None or sum(1 for b in s.atoms if b.element != 'H' and b.resname not in ('HOH', 'H2O')
+                                 and 1e-6 < (b.x / 1000.0 - at.x) ** 2 + (b.y / 1000.0 - at.y) ** 2 + (b.z / 1000.0 - at.z) ** 2 < 4.0) != nb:
+                regular = False      # (counted on the atoms of the input file)
         if not regular:
             stats['irregular'] += 1
             continue
@@ -199,6 +200,9 @@ def inputs(tier):
     out.append(dict(src='corpus', d=corpus.cutout_desc('1FTJ', 'A', 42, 9.0)))
     for ion, kind, dist in (('ZN', 'HIS', 2.1), ('ZN', 'HIS', 2.3), ('CA', 'ASP', 2.4), ('ZN', 'CYS', 2.3), ('MG', 'GLN', 2.1), ('FE', 'HIS', 2.2), ('ZN', 'LYS', 2.1)):
         out.append(dict(src='corpus', d=corpus.pair_desc(kind, ion, dist, 'exposed')))
+    # chains capped with an acetyl / N-methyl group written as ATOM records (as simulation packages do)
+    for key, ch, i in (('3SGB', 'E', 30), ('1HPX', 'A', 10), ('1FTJ', 'A', 28)):
+        out.append(dict(src='capped', d=corpus.window_desc(key, ch, i, 6)))
     # residue names the parameter file under test maps onto a protein group type besides the standard ones (HID/HIE/HIP ...): a complete
     # residue of that type's geometry under each such name
     for alias, base in sorted(cfg_aliases().items()):
@@ -262,6 +266,29 @@ def build(case, seed):
                 a.rec = 'HETATM'
                 a.resname = 'MSX'
         return s
+    if case['src'] == 'capped':
+        # the first residue of the window becomes ACE (its CA, C, O kept as CH3, C, O), the last one NME (its N, CA kept as N, CH3)
+        s = corpus.build(case['d'], seed)
+        keys = list(s.residues().keys())
+        first, last = keys[0][:3], keys[-1][:3]
+        items = []
+        for a in s.atoms:
+            if a.reskey == first:
+                if a.name not in ('CA', 'C', 'O'):
+                    continue
+                a = a.clone()
+                a.resname = 'ACE'
+                if a.name == 'CA':
+                    a.name4 = ' CH3'
+            elif a.reskey == last:
+                if a.name not in ('N', 'CA'):
+                    continue
+                a = a.clone()
+                a.resname = 'NME'
+                if a.name == 'CA':
+                    a.name4 = ' CH3'
+            items.append(a)
+        return gen.S(items)
     if case['src'] == 'alias':
         s = corpus.build(case['d'], seed)
         keys = list(s.residues().keys())
@@ -283,8 +310,12 @@ def run_case(case, ctx, acc):
     text0 = gen.to_text(s)
     seam = RotamerSeam()
     try:
-        for mode, opts in (('default', ()), ('protonate-all', ('--protonate-all',))):
-            for unrounded in (False, True):
+        import logging
+        for mode, opts in (('default', ()), ('protonate-all', ('--protonate-all',)), ('default+host-debug-logging', ()),
+                           ('protonate-all+host-debug-logging', ('--protonate-all',))):
+            # (the last two: the host application has switched the package's loggers to DEBUG)
+            logging.getLogger('propka').setLevel(logging.DEBUG if 'host-debug' in mode else logging.NOTSET)
+            for unrounded in ((False,) if 'host-debug' in mode else (False, True)):
                 pk.seam_unrounded_hydrogens(unrounded)
                 seam.rotamer_parents.clear()
                 mark = pk.warn_mark()
@@ -342,8 +373,10 @@ def run_case(case, ctx, acc):
                             if ck not in donek:
                                 donek.add(ck)
                                 acc.viols.append(Viol(subk, 'hydrogens', ck, what, inputs=dict(pdb=gen.to_text(items), opts=['--keep-protons'])))
+                if 'host-debug' in mode:
+                    continue      # geometry, complement and warnings only (equivariance is judged in the plain modes)
                 # equivariance
-                small = case['src'] not in ('corpus', 'alias')
+                small = case['src'] not in ('corpus', 'alias', 'capped')
                 rots = range(24) if (small or ctx.tier == 'thorough') else (0, 3, 7, 13, 18, 22)
                 tol = 1e-9 if unrounded else 0.002
                 for ri in rots:
@@ -400,5 +433,7 @@ def run_case(case, ctx, acc):
                         if bad:
                             acc.viols.append(Viol(sub2, 'equivariance', bad[0] + '/' + mode, bad[1], inputs=dict(pdb=text0, moved=gen.to_text(moved), opts=list(opts))))
     finally:
+        import logging as _lg
+        _lg.getLogger('propka').setLevel(_lg.NOTSET)
         seam.remove()
         pk.seam_unrounded_hydrogens(False)
